@@ -3,17 +3,41 @@
 import json, os
 HERE = os.path.dirname(os.path.dirname(os.path.abspath(__file__)))
 
+PROOF_L = ('the list differ/patcher chain (18 real functions incl. 3 lemmas: builder append, diff_from_lcs, brute-force LCS, '
+           'diff_lists, patch_list) is PROVED for all inputs from the current source by contract-based VCs (pyvc -> z3/cvc5)')
+TRUST = ('Trusted: pyvc encoding assumptions (listed in evidence), SMT solvers, assumed contracts named in evidence, table contracts '
+         'differs_ok / pred_exact as preconditions; bounded parts explore the stated small scope only and are never counted as proved.')
+TECH_MIX = 'contract-based deductive verification (AST->VC->SMT) of the real functions + bounded run-time contracts'
+TECH_B = 'bounded run-time contract on the public API (stand-in; no function of this property is yet under a discharged contract)'
+
+
+def bounded(text, ref):
+    return dict(category='exploration', text=text + ' Labelled bounded: a stand-in, not a proof.', design_ref=ref,
+                note='Explores only the stated small scope (notebook grammar, edit scripts, strategy tables, seeds); recorded findings are listed in known_findings.json.',
+                technique=TECH_B)
+
+
 CLAIMS = {
- 'C02': dict(
-   category='other',
-   text=('Mixed: the list differ/patcher chain (18 real functions incl. 3 lemmas: builder append, diff_from_lcs, brute-force LCS, '
-         'diff_lists, patch_list) is PROVED for all inputs from the current source by contract-based VCs (pyvc -> z3/cvc5); '
-         'the dict and string differs and the type dispatchers are covered only by a BOUNDED run-time contract on the public API '
-         'against an independent implementation of the documented format. Hence level other, not proof.'),
-   design_ref='DESIGN.md 5/C02, Appendix F',
-   note=('Trusted: pyvc encoding assumptions (listed in evidence), SMT solvers, assumed contracts named in evidence, '
-         'table contracts differs_ok / pred_exact as preconditions; bounded part explores the stated small scope only.'),
-   technique='contract-based deductive verification (AST->VC->SMT) of the real functions + bounded run-time contracts'),
+ 'C01': dict(category='other', design_ref='DESIGN.md 5/C01', note=TRUST, technique=TECH_MIX,
+   text='Mixed: ' + PROOF_L + ' -- this is the generic machinery diff_notebooks is built on; the notebook-specific differs (multilevel snakes, '
+        'output/mime/attachment differs, string flattening) and the nbdiff --out / nbpatch file interface are covered by a BOUNDED run-time contract with an '
+        'independent implementation of the documented diff format as second oracle. Hence level other, not proof.'),
+ 'C02': dict(category='other', design_ref='DESIGN.md 5/C02', note=TRUST, technique=TECH_MIX,
+   text='Mixed: ' + PROOF_L + '; the dict and string differs and the type dispatchers are covered only by a BOUNDED run-time contract on the public API '
+        'against an independent implementation of the documented format. Hence level other, not proof.'),
+ 'C03': bounded('Run-time contract "merge_notebooks returns normally" over notebook triples x strategy tables x text-merge helpers (git / diff3 / built-in, selected via PATH).', 'DESIGN.md 5/C03'),
+ 'C04': bounded('Run-time contract "merged notebook validates against nbformat\'s schema file for its declared minor" (jsonschema directly, not nbformat.validate) over the C03 space incl. mixed minors.', 'DESIGN.md 5/C04'),
+ 'C05': bounded('Run-time contracts for identity / one-sided adoption / agreement (notebooks x strategy tables, generic JSON) and role-swap symmetry (side-naming strategies swapped with the roles; same-position double inserts excluded).', 'DESIGN.md 5/C05'),
+ 'C06': bounded('By-construction expectation: per-cell ownership, actions and non-adjacent insertions; expected notebook built without nbdime; also generic JSON dict/list cases.', 'DESIGN.md 5/C06'),
+ 'C07': bounded('Line-set survival/provenance contracts and the same-line-rewrite flagging contract under the default strategy for each text-merge helper.', 'DESIGN.md 5/C07'),
+ 'C09': bounded('Ordering (prefix_before), merge/diff schema validation, JSON round trip, apply_decisions==merged, and choose-local / choose-remote reproduction under the web tool strategy.', 'DESIGN.md 5/C09'),
+ 'C10': bounded('use-x strategies (uniform and mixed merge/input/output, transients on/off) against the open merge with every conflicted decision re-labelled to the side its path selects; no-fabricated-line clause.', 'DESIGN.md 5/C10'),
+ 'C11': dict(category='other', design_ref='DESIGN.md 5/C11', note=TRUST, technique=TECH_MIX,
+   text='Mixed: wf_seq(result, len(a)) is a discharged postcondition of diff_from_lcs, diff_sequence_bruteforce, diff_sequence and diff_lists, and builder order of '
+        'SequenceDiffBuilder.append (all inputs); deep well-formedness, schema validity and JSON round trip of every generic/notebook diff and of the diffs inside merge '
+        'decisions are covered by a BOUNDED run-time contract.'),
+ 'C13': bounded('Before/after canonical-JSON snapshot of every argument of diff_notebooks, patch_notebook, merge_notebooks, apply_decisions and pretty_print_* (incl. valid diffs with shuffled mapping entries).', 'DESIGN.md 5/C13'),
+ 'C14': bounded('Category table of the statement as oracle: no entry inside an ignored category, round trip modulo masking, empty diff when only ignored parts differ; 64 subsets x {negative flags, positive flags, Ignore mapping} through the real argparse actions.', 'DESIGN.md 5/C14'),
 }
 
 NOT_APPLICABLE = {
